@@ -152,6 +152,28 @@ pub fn gen(out: &mut dyn Write, seed: u64, thorough: bool) {
             writeln!(out, "O oracle {} => ok", orc).unwrap();
         }
     }
+    // 3b. a valid rendering followed by stray pixels / with pixels missing at the end / one more row
+    for (si, s) in sizes.iter().enumerate() {
+        let inf = vh::size_info(*s);
+        let n = inf.num_data_codewords + inf.num_ecc_blocks * inf.num_ecc_per_block;
+        let cw: Vec<u8> = (0..n).map(|_| rng.byte()).collect();
+        let (bits, w) = render(*s, &cw);
+        let mut variants: Vec<Vec<bool>> = vec![];
+        for extra in [1usize, w / 2, w - 1, w] {
+            let mut b = bits.clone();
+            b.extend((0..extra).map(|i| i % 3 == 0));
+            variants.push(b);
+        }
+        for missing in [1usize, w - 1, w] {
+            variants.push(bits[..bits.len() - missing].to_vec());
+        }
+        for b in variants {
+            let (ans, orc) = parse(&b, w);
+            writeln!(out, "P parse {} {} => {}", w, pack_bits(&b), ans).unwrap();
+            writeln!(out, "O oracle {} => ok", orc).unwrap();
+        }
+        let _ = si;
+    }
     // 4. degenerate inputs: width 0, length not a multiple, unknown dimensions, constant arrays
     for len in [0usize, 1, 7, 100] {
         let bits = vec![true; len];
@@ -202,4 +224,74 @@ pub fn gen(out: &mut dyn Write, seed: u64, thorough: bool) {
     writeln!(out, "# pixels_in_layouts {}", n_pixels).unwrap();
     writeln!(out, "# single_module_deviations {}", n_dev).unwrap();
     writeln!(out, "# deviations_rejected {}", n_dev_fixed).unwrap();
+}
+
+/// C05 (and C08's strictness): the two pixel-level entry points, `MatrixMap::try_from_bits` and
+/// `DataMatrix::decode`, on arrays *around* valid symbols: the exact rendering, stray pixels after the last
+/// row, missing pixels, a wrong width, a few flipped modules, for every symbol size. Every case is
+/// answered by the parser model and by the composition of the decoder models.
+pub fn gen_c05p(out: &mut dyn Write, seed: u64, thorough: bool) {
+    use datamatrix::DataMatrix;
+    let sizes = all_sizes();
+    let mut rng = Rng::new(seed ^ 0xC05B);
+    let mut n = 0usize;
+    let fulldec = |bits: &[bool], w: usize| -> String {
+        let b = bits.to_vec();
+        match guarded(move || DataMatrix::decode(&b, w)) {
+            Ok(Ok(v)) => format!("ok:{}", hex(&v)),
+            Ok(Err(datamatrix::DecodingError::DataDecoding(e))) => crate::gen_dec::derr(&e),
+            Ok(Err(datamatrix::DecodingError::PixelConversion(_))) => "err:pixel".into(),
+            Ok(Err(datamatrix::DecodingError::ErrorCorrection(_))) => "err:rs".into(),
+            Err(_) => "panic".into(),
+        }
+    };
+    for (si, s) in sizes.iter().enumerate() {
+        let cap = vh::size_info(*s).num_data_codewords;
+        let reps = if thorough { 6 } else { 2 };
+        for r in 0..reps {
+            // a message that fits: digits (two per codeword) or letters
+            let len = if r % 2 == 0 { cap.min(1 + rng.below(cap)) } else { (2 * cap).min(2 + 2 * rng.below(cap)) };
+            let data: Vec<u8> = (0..len).map(|i| if r % 2 == 0 { b'A' + (i % 26) as u8 } else { b'0' + (i % 10) as u8 }).collect();
+            let d2 = data.clone();
+            let s2 = *s;
+            let dm = match guarded(move || DataMatrix::encode(&d2, s2)) {
+                Ok(Ok(dm)) => dm,
+                _ => continue,
+            };
+            let bm = dm.bitmap();
+            let (bits, w) = (bm.bits().to_vec(), bm.width());
+            let mut variants: Vec<(Vec<bool>, usize, &str)> = vec![(bits.clone(), w, "exact")];
+            for extra in [1usize, w / 2, w - 1] {
+                let mut b = bits.clone();
+                b.extend((0..extra).map(|i| i % 2 == 0));
+                variants.push((b, w, "stray_pixels"));
+            }
+            for missing in [1usize, w - 1, w] {
+                variants.push((bits[..bits.len() - missing].to_vec(), w, "missing_pixels"));
+            }
+            variants.push((bits.clone(), w + 1, "wrong_width"));
+            variants.push((bits.clone(), w - 1, "wrong_width"));
+            let mut extra_row = bits.clone();
+            extra_row.extend(std::iter::repeat(true).take(w));
+            variants.push((extra_row, w, "extra_row"));
+            let mut flipped = bits.clone();
+            for _ in 0..(1 + rng.below(4)) {
+                let p = rng.below(flipped.len());
+                flipped[p] = !flipped[p];
+            }
+            variants.push((flipped, w, "flipped_modules"));
+            for (b, w2, tag) in variants {
+                let (ans, orc) = parse(&b, w2);
+                writeln!(out, "P parse {} {} => {}", w2, pack_bits(&b), ans).unwrap();
+                writeln!(out, "O oracle {} => ok", orc).unwrap();
+                let a = fulldec(&b, w2);
+                writeln!(out, "M fulldec {} {} => {}", w2, pack_bits(&b), a).unwrap();
+                if a == "panic" {
+                    writeln!(out, "O oracle fail:panic:DataMatrix::decode:{}:{}:{} => ok", si, tag, w2).unwrap();
+                }
+                n += 1;
+            }
+        }
+    }
+    writeln!(out, "# pixel_arrays_around_valid_symbols {}", n).unwrap();
 }
